@@ -15,6 +15,8 @@ From NV Require Import Model.Base Model.Diag Model.RuleChecks Gen.RuleChecks Mod
 From NV Require Import Proofs.EngineProofs Proofs.RuleChecksProofs Proofs.RuleChecksProofs2 Proofs.RuleChecksLift.
 From NV Require Import Proofs.RuleChecksSpacing Proofs.RuleChecksSpacing3 Proofs.SpacingTotal Proofs.RuleChecksSpacing2.
 From NV Require Import Model.CounterBase Gen.MoreChecks Proofs.MoreChecksProofs.
+From NV Require Import Model.NameBase Gen.NameChecks Proofs.NameChecksProofs Proofs.NameChecksLift.
+From NV Require Import Gen.Counters Model.ScopeBase Gen.ScopeOps Model.ScopeTrace Model.ScopeBody Model.CounterTrace Proofs.ScopeTraceProofs Proofs.CounterProofs.
 Local Open Scope Z_scope.
 
 (* the full property, over the components that are not all modelled (kept visible, not proved) *)
@@ -29,7 +31,7 @@ Definition C02_statement (program : Type) (wf : program -> Prop) (render : progr
 
 Definition proved_operators : list string :=
   ["S05"; "L01"; "S03"; "S04"; "S07"; "S08"; "W01"; "W03"; "W04"; "W05"; "W06"; "W07"; "W08"; "W09"; "W10"; "W12"; "W13"; "W14"; "W15"; "W17";
-   "T01"; "T02"; "T03"; "T04"; "S01"; "S02"; "S06"; "S11"; "O07"]%string.
+   "T01"; "T02"; "T03"; "T04"; "S01"; "S02"; "S06"; "S11"; "O07"; "N01"; "N02"; "K01"; "K02"; "K03"; "D04"; "F03"; "F04"; "F05"]%string.
 
 (* ---- S05 ternary *)
 Theorem C02_partial_S05 : forall toks scope v i t,
@@ -240,6 +242,104 @@ Theorem C02_partial_O07_given_trace : forall l0 tk rest scope v tn E v',
   In (s "SPACE_AFTER_KW", t_line tk, t_col tk) E.
 Proof. exact space_after_kw_reported. Qed.
 Print Assumptions C02_partial_O07_given_trace.
+
+(* ---- third batch (Gen/NameChecks.v, tools/translate_names.py): CheckIdentifierName and CheckComment, both `_rule` checks *)
+(* N01: at a function definition (history[-1] = IsFuncDeclaration, global scope; fname = the name IsFuncDeclaration stored, fpos the
+   position it stored) a character outside a-z 0-9 _ in the name: FORBIDDEN_CHAR_NAME at the name token *)
+Theorem C02_partial_N01_given_trace : forall toks fname fpos vars t udt,
+  illegal_name fname = true -> peek toks fpos = Some t ->
+  exists E, check_identifier_name toks ident_func_rule true udt (Some fname) fpos vars = Ok E /\ In (c_char_name, t_line t, t_col t) E.
+Proof. exact ident_func_reported. Qed.
+Print Assumptions C02_partial_N01_given_trace.
+Theorem C02_partial_N01_silent : forall toks fname fpos vars t udt,
+  illegal_name fname = false -> peek toks fpos = Some t ->
+  check_identifier_name toks ident_func_rule true udt (Some fname) fpos vars = Ok (var_diags vars).
+Proof. exact ident_func_silent. Qed.
+Print Assumptions C02_partial_N01_silent.
+
+(* N02: a name in scope.vars_name (what the declaration primaries stored) with such a character: reported at its token, exactly then *)
+Theorem C02_partial_N02_given_trace : forall toks last glob udt fname fpos vars E val l c,
+  check_identifier_name toks last glob udt fname fpos vars = Ok E -> In (val, l, c) vars -> illegal_name val = true ->
+  In (c_char_name, l, c) E.
+Proof. exact ident_var_reported. Qed.
+Print Assumptions C02_partial_N02_given_trace.
+Theorem C02_partial_N02_iff : forall toks last fname fpos vars l c, str_eqb last ident_func_rule = false ->
+  exists E, check_identifier_name toks last true false fname fpos vars = Ok E /\
+    (In (c_char_name, l, c) E <-> exists val, In (val, l, c) vars /\ illegal_name val = true).
+Proof. exact ident_var_iff. Qed.
+Print Assumptions C02_partial_N02_iff.
+
+(* K03: a comment that is not the first token of the statement's first line and is followed there by something other than blanks and
+   comments: COMMENT_ON_INSTR at it, for every history and scope; and only such comments get it *)
+Theorem C02_partial_K03 : forall toks hist cls l0 tc r,
+  collect_line toks (skip_ws toks 0) = l0 ++ tc :: r -> l0 <> [] -> is_comment tc = true -> comment_is_last r = false ->
+  In (c_on_instr, t_line tc, t_col tc) (check_comment toks hist cls).
+Proof. exact comment_on_instr_reported. Qed.
+Print Assumptions C02_partial_K03.
+Theorem C02_partial_K03_only : forall inside l first li co,
+  In (c_on_instr, li, co) (comment_scan inside first l) ->
+  exists l0 tc r, l = l0 ++ tc :: r /\ (first = false \/ l0 <> []) /\ is_comment tc = true /\ comment_is_last r = false /\
+                  li = t_line tc /\ co = t_col tc.
+Proof. exact comment_on_instr_only. Qed.
+Print Assumptions C02_partial_K03_only.
+(* the same over the statements of a run of the generic registry loop: CheckComment is run on each of them *)
+Theorem C02_partial_K03_file : forall oracle (ftoks : list token) segs name before after l0 tc r,
+  good oracle -> run_file oracle 0 (List.length ftoks) = Ok segs -> In (SMatch name before after) segs ->
+  let rem := skipn (List.length ftoks - before) ftoks in
+  collect_line rem (skip_ws rem 0) = l0 ++ tc :: r -> l0 <> [] -> is_comment tc = true -> comment_is_last r = false ->
+  In (s "CheckComment") (checks_run_on name) /\
+  forall hist cls, In (c_on_instr, t_line tc, t_col tc) (check_comment rem hist cls).
+Proof. exact file_comment_on_instr. Qed.
+Print Assumptions C02_partial_K03_file.
+
+(* K01, K02: when is_inside_a_function holds - in particular whenever the scope is a Function or the statement follows the function's
+   opening brace - every comment of the line gets WRONG_SCOPE_COMMENT; outside any function none does *)
+Theorem C02_partial_K01_K02 : forall toks hist cls l0 tc r,
+  comment_inside_function hist cls = true -> collect_line toks (skip_ws toks 0) = l0 ++ tc :: r -> is_comment tc = true ->
+  In (c_wrong_scope, t_line tc, t_col tc) (check_comment toks hist cls).
+Proof. exact comment_wrong_scope_reported. Qed.
+Print Assumptions C02_partial_K01_K02.
+Theorem C02_partial_K01_K02_inside : forall hist cls,
+  str_eqb cls comment_func_class = true \/ (exists rest, hist = s "IsBlockStart" :: s "IsFuncDeclaration" :: rest) ->
+  comment_inside_function hist cls = true.
+Proof. exact comment_inside_function_direct. Qed.
+Print Assumptions C02_partial_K01_K02_inside.
+Theorem C02_partial_K01_K02_only : forall l first li co, ~ In (c_wrong_scope, li, co) (comment_scan false first l).
+Proof. exact comment_wrong_scope_only. Qed.
+Print Assumptions C02_partial_K01_K02_only.
+
+(* ---- the limit operators, decided by the counter theorems of C03 (Gen/Counters.v, Gen/ScopeOps.v; trace level: which statements
+   are IsFuncDeclaration / IsVarDeclaration matches is taken from the trace) *)
+(* F04, at FILE level: along any file of the statement grammar the k-th function definition gets TOO_MANY_FUNCS iff k > 5 *)
+Theorem C02_partial_F04_file : forall f, file f ->
+  exists q, crun cstate0 f = Some q /\ functions q = nfuncs f /\ fems q = tmf_list 0 f /\
+    zlen (fems q) = Z.max 0 (nfuncs f - functions_limit).
+Proof. exact funcs_iff. Qed.
+Print Assumptions C02_partial_F04_file.
+(* D04: the declarations at the start of a function body beyond the 5th get TOO_MANY_VARS_FUNC, per function *)
+Theorem C02_partial_D04_given_trace : forall q nl gap nlo nls rest nlc, at_file_level q -> cinv q -> gap_ok gap -> body rest ->
+  forallb (fun x => negb (is_vdecl x)) rest = true ->
+  exists q', crun q (block_of (s_func nl) gap nlo (map vdecl nls ++ rest) nlc) = Some q' /\
+    vems q' = tmv_list 0 (map vdecl nls) ++ vems q /\
+    zlen (tmv_list 0 (map vdecl nls)) = Z.max 0 (zlen nls - vars_limit) /\
+    at_file_level q' /\ cinv q'.
+Proof. exact vars_iff. Qed.
+Print Assumptions C02_partial_D04_given_trace.
+(* F03: a parameter list with n top-level commas: TOO_MANY_ARGS (at the token after the closing parenthesis) iff 1 + n > 4 *)
+Theorem C02_partial_F03_given_trace : forall pre name lp l n rp tp post scope v,
+  t_type lp = CounterProofs.ty_lpar -> t_type rp = CounterProofs.ty_rpar -> plist l n ->
+  check_func_decl_args (pre ++ name :: lp :: l ++ rp :: tp :: post) scope (zlen pre) v
+  = Ok (args_start + n, zlen pre + 2 + zlen l + 1,
+        if args_start + n >? args_limit then [(s "TOO_MANY_ARGS", t_line tp, t_col tp)] else []).
+Proof. exact args_iff. Qed.
+Print Assumptions C02_partial_F03_given_trace.
+(* F05: a function whose `{` is alone on its line and whose well-nested body has more than 25 line ends: TOO_MANY_LINES at its
+   closing brace, exactly then *)
+Theorem C02_partial_F05_given_trace : forall g rest hs E nl b nlc, isglobal g -> last_ok hs -> body b ->
+  exists q, run (mkstate (g :: rest) hs E) (block_of (s_func nl) [] 1 b nlc) = Some q /\
+    ((total_nl b > 25 -> ems q = tml :: E) /\ (total_nl b <= 25 -> ems q = E)).
+Proof. exact too_many_lines_25. Qed.
+Print Assumptions C02_partial_F05_given_trace.
 
 (* ---- known findings, as far as the modelled checks show them *)
 (* W05 on a line holding a single token (`    {`): the model of CheckSpacing prints SPACE_EMPTY_LINE and no SPACE_REPLACE_TAB
